@@ -101,7 +101,13 @@ class CppGen:
         self.tmp = 0
 
     def cname(self, t):
+        if t.get("svc"):
+            return "%s::%s::%s_1_0" % (self.ts.ns, t["name"], t["svc"])
         return "%s::%s_1_0" % (self.ts.ns, t["name"])
+
+    @staticmethod
+    def fn(t):
+        return t["name"] + (t["svc"] if t.get("svc") else "")
 
     def stype(self, t):
         k = t["k"]
@@ -141,13 +147,13 @@ class CppGen:
         elif k == "void":
             pass
         elif dsdl.is_comp(f):
-            out.append("%sfill_%s(%s);" % (p, f["name"], lv))
+            out.append("%sfill_%s(%s);" % (p, self.fn(f), lv))
         elif k == "farr":
             e = f["e"]
             i = self.var()
             out.append("%sfor (std::size_t %s = 0; %s < %d; %s++) {" % (p, i, i, f["n"], i))
             if dsdl.is_comp(e):
-                out.append("%s    fill_%s(%s[%s]);" % (p, e["name"], lv, i))
+                out.append("%s    fill_%s(%s[%s]);" % (p, self.fn(e), lv, i))
             else:
                 out.append("%s    %s[%s] = %s;" % (p, lv, i, self.rd(e)))
             out.append("%s}" % p)
@@ -158,14 +164,14 @@ class CppGen:
             out.append("%s  %s.clear();" % (p, lv))
             out.append("%s  for (std::size_t %s = 0; %s < _n; %s++) {" % (p, i, i, i))
             if dsdl.is_comp(e):
-                out.append("%s    %s.emplace_back(); fill_%s(%s.back());" % (p, lv, e["name"], lv))
+                out.append("%s    %s.emplace_back(); fill_%s(%s.back());" % (p, lv, self.fn(e), lv))
             else:
                 out.append("%s    %s.push_back(%s);" % (p, lv, self.rd(e)))
             out.append("%s  }" % p)
             out.append("%s  for (std::size_t %s = _n; %s < _count; %s++) %s.push_back(%s()); }" % (p, i, i, i, lv, self.stype(e)))
 
     def fill_fn(self, t):
-        out = ["static void fill_%s(%s& o) {" % (t["name"], self.cname(t)), "    (void) o;"]
+        out = ["static void fill_%s(%s& o) {" % (self.fn(t), self.cname(t)), "    (void) o;"]
         if t["k"] == "struct":
             for i, f in enumerate(t["fields"]):
                 self.fill_field(f, "o.f%d" % i, out, 1)
@@ -190,7 +196,7 @@ class CppGen:
         elif k == "void":
             out.append('%sstd::printf("[]");' % p)
         elif dsdl.is_comp(f):
-            out.append("%sdump_%s(%s);" % (p, f["name"], lv))
+            out.append("%sdump_%s(%s);" % (p, self.fn(f), lv))
         elif k in ("farr", "varr"):
             e = f["e"]
             i = self.var()
@@ -201,7 +207,7 @@ class CppGen:
                 out.append('%sstd::printf("{\\"n\\":%%lu,\\"e\\":[", static_cast<unsigned long>(%s.size()));' % (p, lv))
                 out.append("%sfor (std::size_t %s = 0; %s < %s.size(); %s++) { if (%s) std::putchar(',');" % (p, i, i, lv, i, i))
             if dsdl.is_comp(e):
-                out.append("%s    dump_%s(%s[%s]);" % (p, e["name"], lv, i))
+                out.append("%s    dump_%s(%s[%s]);" % (p, self.fn(e), lv, i))
             elif e["k"] == "bool":
                 out.append("%s    hexb(%s[%s]);" % (p, lv, i))
             else:
@@ -210,7 +216,7 @@ class CppGen:
             out.append('%sstd::printf("%s");' % (p, "]" if k == "farr" else "]}"))
 
     def dump_fn(self, t):
-        out = ["static void dump_%s(const %s& o) {" % (t["name"], self.cname(t)), "    (void) o;"]
+        out = ["static void dump_%s(const %s& o) {" % (self.fn(t), self.cname(t)), "    (void) o;"]
         if t["k"] == "struct":
             out.append("    std::putchar('[');")
             for i, f in enumerate(t["fields"]):
@@ -229,7 +235,7 @@ class CppGen:
 
     def source(self):
         parts = [PRELUDE % {"includes": "\n".join('#include "%s/%s_1_0.hpp"' % (self.ts.ns, t["name"]) for t in self.ts.all)}]
-        for t in self.ts.all:
+        for t in self.ts.all + [t["partner"] for t in self.ts.all if "partner" in t]:
             parts.append(self.fill_fn(t))
             parts.append(self.dump_fn(t))
         tops = self.ts.tops
@@ -240,7 +246,7 @@ class CppGen:
         drop = ["static void drop_all() {"]
         for i, t in enumerate(tops):
             cn = self.cname(t)
-            ser.append("    case %d: { std::unique_ptr<%s> o(new %s()); fill_%s(*o);" % (i, cn, cn, t["name"]))
+            ser.append("    case %d: { std::unique_ptr<%s> o(new %s()); fill_%s(*o);" % (i, cn, cn, self.fn(t)))
             ser.append("        const auto r = serialize(*o, nunavut::support::bitspan(buf, bufsize));")
             ser.append('        std::printf("\\"err\\":\\"%s\\",\\"size\\":%lu,\\"bytes\\":", kind(r), static_cast<unsigned long>(r ? r.value() : 0));')
             ser.append("        hex(buf, (r && r.value() <= bufsize) ? r.value() : 0); break; }")
@@ -249,7 +255,7 @@ class CppGen:
                        % max(8, min(64, dsdl.max_bits_body(t) // 8 + 1)))
             des.append("        const auto r = deserialize(*o, nunavut::support::const_bitspan(buf, size));")
             des.append('        std::printf("\\"err\\":\\"%s\\",\\"consumed\\":%lu,\\"val\\":", kind(r), static_cast<unsigned long>(r ? r.value() : 0));')
-            des.append('        if (r) dump_%s(*o); else std::printf("[]");' % t["name"])
+            des.append('        if (r) dump_%s(*o); else std::printf("[]");' % self.fn(t))
             des.append("        if (keep[%d] && keep[%d] != o) delete static_cast<%s*>(keep[%d]); keep[%d] = o; break; }" % (i, i, cn, i, i))
             meta.append('    case %d: std::printf("\\"extent\\":%%lu,\\"bufsize\\":%%lu,\\"sizeof\\":%%lu", static_cast<unsigned long>(%s::_traits_::ExtentBytes), static_cast<unsigned long>(%s::_traits_::SerializationBufferSizeBytes), static_cast<unsigned long>(sizeof(%s))); break;'
                         % (i, cn, cn, cn))
